@@ -1,4 +1,5 @@
 import Driver.Util
+import Driver.Genum
 import Driver.GErrorIs
 import Driver.Log
 import Driver.BitSet
@@ -15,6 +16,7 @@ Core-only so that it links as a native executable. -/
 open Drv
 
 structure DState where
+  gn : Drv.Genum.St := {}
   gei : Drv.GEI.St := {}
   lg : Drv.Log.DSt := {}
   set : Drv.Set.St := none
@@ -46,6 +48,7 @@ def step (st : DState) (line : String) : DState × String :=
   | "case" :: rest => ({}, joinSp ("case" :: rest))
   | "lg" :: rest => let r := Drv.Log.handle st.lg rest; ({ st with lg := r.1 }, r.2)
   | "gei" :: rest => let r := Drv.GEI.handle st.gei rest; ({ st with gei := r.1 }, r.2)
+  | "gn" :: rest => let r := Drv.Genum.handle st.gn rest; ({ st with gn := r.1 }, r.2)
   | "echo" :: rest => (st, joinSp rest)
   | _ => (st, "bad-op")
 
